@@ -4,6 +4,8 @@
 #![allow(dead_code)]
 #[path = "../../hcore/src/common.rs"]
 mod common;
+pub mod node;
+mod selftest;
 mod c01;
 mod c02;
 mod c03;
@@ -33,6 +35,7 @@ fn main() {
     }
     let opts = common::Opts::parse(&args[1..]);
     match args[0].as_str() {
+        "selftest" => selftest::run(&opts),
         "C01" => c01::run(&opts),
         "C02" => c02::run(&opts),
         "C03" => c03::run(&opts),
